@@ -25,7 +25,7 @@ const (
 	callCeilingPerMiB       = 6 * time.Second
 	shortCeiling            = 2 * time.Second // once fullCeilingTimeouts calls on the transport never returned
 	watchdogGrace           = 4 * time.Second // how long after its deadline a call may take to notice
-	fullCeilingTimeouts     = 2
+	fullCeilingTimeouts     = 1               // (a failing run: the first witness waited the full ceiling, the further ones need not)
 	maxTimeoutsPerOp        = 2
 	maxTimeoutsPerTransport = 5
 )
@@ -49,8 +49,8 @@ func jsonSize(v any) int {
 	return len(b)
 }
 
-func resultSize(r *mcp.CallToolResult) int     { return jsonSize(r) }
-func promptSize(r *mcp.GetPromptResult) int    { return jsonSize(r) }
+func resultSize(r *mcp.CallToolResult) int       { return jsonSize(r) }
+func promptSize(r *mcp.GetPromptResult) int      { return jsonSize(r) }
 func resourcesSize(r []mcp.ResourceContents) int { return jsonSize(r) }
 
 func (e *env) ceiling(size int) time.Duration {
@@ -58,7 +58,7 @@ func (e *env) ceiling(size int) time.Duration {
 	if e.timeouts >= fullCeilingTimeouts {
 		d = shortCeiling
 	}
-	return d + time.Duration(int64(callCeilingPerMiB)*int64(size)/(1<<20))
+	return (d + time.Duration(int64(callCeilingPerMiB)*int64(size)/(1<<20))).Round(100 * time.Millisecond)
 }
 
 // control: set by a caller that can tell what a near-identical harmless input does (see keywordPath); consulted once, by the
@@ -109,7 +109,7 @@ func (e *env) bounded(opName string, input func() any, size int, fn func(ctx con
 		observed["control"] = ctl()
 	}
 	e.c.Violate(hk.Violation{Fingerprint: "content:" + e.mode + ":call-never-returns:" + opName,
-		What: "the value a handler returned never reached the caller: " + opName + " " + how + " (deadline " + d.String() + "; an ordinary call takes milliseconds)",
+		What:  "the value a handler returned never reached the caller: " + opName + " " + how + " (deadline " + d.String() + "; an ordinary call takes milliseconds)",
 		Input: map[string]any{"mode": e.mode, "op": opName, "handler returns": in, "deadline_s": d.Seconds()}, Observed: observed,
 		Expected: "the call returns the handler's value"})
 	e.lastNever = true
